@@ -221,7 +221,9 @@ def gen_case(rng, exact=False, force_order=None, force_n=None):
                 knots.append(ks)
     # far from the origin: the convolved axis (or every axis) is an exact translate by 2^e of a dyadic knot vector, e.g. a time axis in
     # seconds since some epoch. The translate is exactly representable, so the convolved table must be the exact translate as well.
+    far = False
     if rng.chance(0.25 if exact else 0.15):
+        far = True
         e = rng.choice([20, 24, 27, 29, 30, 31, 33, 36, 40])
         sign = rng.choice([1.0, 1.0, -1.0])
         for d in range(ndim):
@@ -239,7 +241,12 @@ def gen_case(rng, exact=False, force_order=None, force_n=None):
     coefs = [gen_coef(rng, cs) for _ in range(nco)]
     t = Table(orders, knots, coefs, rng.choice([math.nan, 1e300, 0.0]))
     kind = rng.choice(KIND_KERNEL)
-    kernel = gen_kernel(rng, knots[dim], n, kind, dyadic=exact or rng.chance(0.2))
+    # far from the origin only a kernel on the dyadic grid keeps every knot + kernel-knot sum exact (a kernel narrower than the
+    # spacing of the doubles out there cannot be represented at all: the convolution with it is not what the property speaks of)
+    kernel = gen_kernel(rng, knots[dim], n, kind, dyadic=exact or far or rng.chance(0.2))
+    if far and not all(fractions.Fraction(t) + fractions.Fraction(y) == fractions.Fraction(t + y) for t in knots[dim] for y in kernel):
+        kernel = gen_kernel(rng, knots[dim], n, "symmetric", dyadic=True)
+        assert all(fractions.Fraction(t) + fractions.Fraction(y) == fractions.Fraction(t + y) for t in knots[dim] for y in kernel)
     ext = None
     if rng.chance(0.3):
         ext = []
